@@ -361,6 +361,16 @@ def convert_case(case, fail):
         fail('brank_dense', f'{bpauli.brank(M)} != {want_rank}')
     if bpauli.brank(csr_matrix(M)) != want_rank:
         fail('brank_sparse', f'{bpauli.brank(csr_matrix(M))} != {want_rank}')
+    # weight of a stack ("vector or matrix", dense or csr): total over its rows
+    if c % 2 == 0 and M.any():
+        h = c // 2
+        want_wt = int(((M[:, :h] | M[:, h:]) > 0).sum())
+        got_d, got_s = int(bpauli.bsf_wt(M)), int(bpauli.bsf_wt(csr_matrix(M)))
+        if got_d != want_wt:
+            fail('bsf_wt_stack_dense', f'{r}x{c} stack: {got_d} != {want_wt}')
+        if got_s != want_wt:
+            fail('bsf_wt_stack_sparse', f'{r}x{c} stack: sparse {got_s}, dense {got_d}, '
+                 f'sum of row weights {want_wt}')
     return 1, ('Y' in s and n >= 2)
 
 
